@@ -114,6 +114,9 @@ def _replay_case(args):
         if (r["ok"], r["tree"] if r["ok"] else []) != (case["impl_ok"], case["impl_tree"] if case["impl_ok"] else []):
             drift += 1
         if style == 1:
+            # history independence of the verdict: the same characters without the blanks are another
+            # token string; interpreting it first must not influence how this one is interpreted
+            run_model("".join(text.split()))
             md_ok, md = run_model(text)
             if md_ok and not case["wi_inlang"]:
                 problems.append(({"clause": "model_description_accepted_non_sentence", "site": "model_description"}, dict(base, model=md)))
